@@ -1,6 +1,7 @@
 (** C10 property theorems.  [beh k] = what the k-th call of f does (return / raise / return an unfired
     Deferred / call stop() or reset() first); [wc] = LoopingCall.withCount; histories [ops] of start / advance /
-    fire-the-oldest-Deferred / stop / reset from the fresh loop.  Integer time (dyadic rationals scaled by 2^k).
+    fire-the-oldest-Deferred / stop / reset from the fresh loop.  Integer time (dyadic rationals scaled by 2^k);
+    interval >= 0 (0 = as fast as possible, on a clock that runs a newly scheduled call in its next iteration).
 
     Guard [run_ok]: start() is never called while a Deferred returned by f is still unfired.  Without the
     guard the control statements are FALSE of the current code (theorems ..._refuted; known finding
@@ -19,14 +20,41 @@ Proof. exact next_time_spec. Qed.
 Print Assumptions next_is_first_boundary_strictly_after.
 
 (** every call the loop ever schedules (ESched w st0 i t: scheduled at time w, when the previous invocation
-    completed, resp. at start()/reset()) is for the first boundary of the current epoch strictly after w.
-    FULL statement: the same without [run_ok]. *)
+    completed, resp. at start()/reset()) is for the first boundary of the current epoch strictly after w; with
+    interval 0 it is for w itself (as soon as possible).  FULL statement: the same without [run_ok]. *)
 Theorem every_call_scheduled_at_first_boundary_after_completion_partial : forall beh wc ops,
   run_ok beh wc init ops ->
   forall w st0 i t, In (ESched w st0 i t) (log (run beh wc init ops)) ->
-  0 < i /\ t = st0 + ((w - st0) / i + 1) * i /\ w < t /\ t <= w + i.
+  (0 < i /\ t = st0 + ((w - st0) / i + 1) * i /\ w < t /\ t <= w + i) \/ (i = 0 /\ t = w).
 Proof. exact reach_sched. Qed.
 Print Assumptions every_call_scheduled_at_first_boundary_after_completion_partial.
+
+(** start(interval, now=False) on an idle loop: f is not called and exactly one call is scheduled, for
+    now + interval; an advance that does not reach a scheduled call only moves the clock; an advance that
+    reaches it enters __call__ exactly once, at the new clock value (the first tick is neither early nor
+    skipped) *)
+Theorem first_tick_of_a_now_false_loop : forall beh wc s i, idle s -> 0 < i ->
+  pend (step beh wc s (Start i false)) = [(nextid s, now s + i)]
+  /\ ncalls (step beh wc s (Start i false)) = ncalls s.
+Proof. exact first_tick_scheduled. Qed.
+Print Assumptions first_tick_of_a_now_false_loop.
+
+Theorem advance_short_of_the_next_call_does_nothing : forall beh wc s id t a,
+  pend s = [(id, t)] -> now s + a < t -> step beh wc s (Advance a) = set_now (now s + a) s.
+Proof. exact advance_before_due. Qed.
+Print Assumptions advance_short_of_the_next_call_does_nothing.
+
+Theorem advance_reaching_the_next_call_calls_once : forall beh wc s id t a,
+  pend s = [(id, t)] -> t <= now s + a ->
+  step beh wc s (Advance a) = invoke beh wc (set_clock [] (nextid s) (call s) (set_now (now s + a) s)).
+Proof. exact advance_when_due. Qed.
+Print Assumptions advance_reaching_the_next_call_calls_once.
+
+(** f is called at most once per advance of the clock, also with interval 0 on a reactor-like clock *)
+Theorem at_most_one_call_per_advance_partial : forall beh wc ops a, run_ok beh wc init ops ->
+  let s := run beh wc init ops in (ncalls (step beh wc s (Advance a)) <= S (ncalls s))%nat.
+Proof. exact one_call_per_advance. Qed.
+Print Assumptions at_most_one_call_per_advance_partial.
 
 (** f is never called while a Deferred returned by an earlier call is unfired.
     FULL statement: forall beh wc ops k n ov, In (ECall k n ov) (log (run beh wc init ops)) -> ov = false. *)
@@ -64,17 +92,35 @@ Theorem no_call_after_stop_or_failure_partial : forall beh wc ops, run_ok beh wc
 Proof. exact reach_quiet. Qed.
 Print Assumptions no_call_after_stop_or_failure_partial.
 
-(** withCount: as long as the epoch was not changed by reset() or a second start(), and the clock never
-    goes back, countCallable is never skipped, every count is >= 1, and the counts sum to the number of
-    boundaries start + j*interval up to the last call (j >= 0 when started with now=True, else j >= 1) *)
+(** withCount, per epoch (an epoch begins at start() and at every effective reset(), which set starttime):
+    the counts passed since the epoch began sum to the interval index of the last counted call minus the base
+    recorded when the epoch began (EEpoch: the index, relative to the new starttime, of the last counted call
+    before it, i.e. minus the whole intervals between that call and the new starttime; -1 / 0 for a fresh
+    now=True / now=False loop).  Clock monotone, interval > 0. *)
+Theorem counts_sum_per_epoch_partial : forall beh wc ops,
+  run_ok beh wc init ops -> Forall nonneg_adv ops ->
+  let s := run beh wc init ops in
+  started s = true -> 0 < interval s -> esum (log s) = lastidx s - ebase (log s).
+Proof. exact reach_counts_epoch. Qed.
+Print Assumptions counts_sum_per_epoch_partial.
+
+(** as long as start() was called at most once (reset() allowed), countCallable is never skipped and every
+    count is >= 1; a second start(now=True) sooner than one interval after the last counted call does skip it *)
+Theorem counts_positive_and_never_skipped_partial : forall beh wc ops,
+  run_ok beh wc init ops -> Forall nonneg_adv ops ->
+  let s := run beh wc init ops in (dgen s <= 1)%nat -> Forall count_ok (log s).
+Proof. exact reach_counts_ok. Qed.
+Print Assumptions counts_positive_and_never_skipped_partial.
+
+(** the simple form (one start(), no reset()): the counts sum to the number of boundaries start + j*interval
+    up to the last call (j >= 0 when started with now=True, else j >= 1) *)
 Theorem counts_sum_to_boundaries_elapsed_partial : forall beh wc ops,
   run_ok beh wc init ops -> Forall nonneg_adv ops ->
   let s := run beh wc init ops in
-  wasreset s = false ->
-  Forall count_ok (log s)
-  /\ csum (log s) = match realLast s with
-                    | Some l => (l - start s) / interval s + (if runAtStart s then 1 else 0)
-                    | None => 0
-                    end.
+  wasreset s = false -> 0 < interval s ->
+  csum (log s) = match realLast s with
+                 | Some l => (l - start s) / interval s + (if runAtStart s then 1 else 0)
+                 | None => 0
+                 end.
 Proof. exact reach_counts. Qed.
 Print Assumptions counts_sum_to_boundaries_elapsed_partial.
